@@ -569,6 +569,8 @@ class HypChooser(object):
         left = nbytes
         while True:
             if left == 0:
+                if not out and self._pct(50):
+                    break           # an empty string in constructed form with no segment at all (X.690 8.6.4 / 8.7.3: zero, one or more)
                 if not out or self._pct(self.w['empty_seg']):
                     out.append((0, None))
                 break
